@@ -25,6 +25,9 @@ def regenerate_lock():
     mpath = os.path.join(GEN, "MutexMacros.lean")
     lockcfg.write_if_changed(mpath, mutexmacros.render(mutexmacros.extract(vlib.REPO)))
     files.append(mpath)
+    tpath = os.path.join(GEN, "MutexTrees.lean")
+    lockcfg.write_if_changed(tpath, mutexmacros.render_trees(vlib.REPO))
+    files.append(tpath)
     # stale parts of an earlier run with more parts
     for f in os.listdir(GEN):
         if re.match(r"Lock(Certs|Wl|Atomic)\d+\.lean$", f) and f not in certs:
@@ -71,6 +74,18 @@ def failing_certificates(build_output):
         t = re.match(r"theorem (\w+)", line)
         if t and t.group(1) not in names:
             names.append(t.group(1))
+    # obligations stated in the Props file itself (macro trees, recursive mutexes, ...): name the theorem
+    for m in re.finditer(r"error: (QlibcModel/Props/C1[34]\.lean):(\d+):", build_output):
+        try:
+            lines = open(os.path.join(vlib.LEAN, m.group(1))).read().splitlines()
+        except Exception:
+            continue
+        for k in range(int(m.group(2)) - 1, -1, -1):
+            t = re.match(r"theorem (\w+)", lines[k])
+            if t:
+                if t.group(1) not in names:
+                    names.append(t.group(1))
+                break
     return names
 
 
@@ -360,7 +375,7 @@ def parse_result(line):
 
 # ------------------------------------------------------------------ long-hold scenario (harness/hold.c)
 
-HOLD_WRAPS = ("pthread_mutex_trylock", "pthread_mutex_unlock", "pthread_mutex_lock")
+HOLD_WRAPS = ("pthread_mutex_trylock", "pthread_mutex_unlock", "pthread_mutex_lock", "pthread_mutex_timedlock")
 HOLD_KINDS = ["vector", "list", "queue", "hashtbl", "listtbl", "treetbl"]
 
 
@@ -368,7 +383,13 @@ def hold_scenarios(tier):
     """T0 holds the container lock while a waiter goes through `rounds` time-outs of Q_MUTEX_ENTER
     (MAX_MUTEX_LOCK_WAIT polls + forced-unlock attempt each)"""
     rounds = [1, 3] if tier == "quick" else [1, 2, 3, 5, 8]
-    return ["hold kind=%s init=%d rounds=%d" % (k, 2 if r == 1 else 3, r) for r in rounds for k in HOLD_KINDS]
+    out = ["hold kind=%s init=%d rounds=%d" % (k, 2 if r == 1 else 3, r) for r in rounds for k in HOLD_KINDS]
+    # nested locking by the lock holder under observation by a second thread (documented traversal idiom
+    # lock(); locking calls ...; unlock()), and short contention (the waiter's FIRST trylock fails, the holder
+    # releases long before the time-out; afterwards a third thread must get in)
+    out += ["hold kind=%s init=2 mode=nested polls=50" % k for k in HOLD_KINDS]
+    out += ["hold kind=%s init=2 mode=contend polls=%d" % (k, p) for k in HOLD_KINDS for p in ([20] if tier == "quick" else [1, 20, 200])]
+    return out
 
 
 def run_hold(impl_dir, lines):
@@ -389,11 +410,25 @@ def _content(text, unordered):
     return (p[0], tuple(sorted(p[1:])) if unordered else tuple(p[1:]))
 
 
+def _hold_what(line, r):
+    a = dict(x.split("=") for x in line.split()[1:])
+    mode = a.get("mode", "long")
+    if mode == "nested":
+        return "%s: lock(); locking public calls by the holder; a second thread tries to get in (%s failed polls): " % (a.get("kind"), r.get("polls"))
+    if mode == "contend":
+        return "%s: short contention (the waiter's first %s trylocks fail, then the holder unlocks): " % (a.get("kind"), r.get("polls"))
+    return "%s: lock held across %s waiter time-out(s) (%s forced-unlock attempts, %s failed polls observed): " % (
+        a.get("kind"), a.get("rounds"), r.get("forced"), r.get("polls"))
+
+
 def judge_hold_c14(line, r):
     """C14 clauses: the owner's depth is back to 0, the waiter's call completes, a probe gets in"""
     if "t0_depth" not in r:
         return "long-hold harness gave no result: %s" % r
     bad = []
+    if r.get("nested_delta", "0") != "0":
+        bad.append("a public call made by the lock holder inside its locked region returned with the REAL mutex depth changed "
+                   "by %s (it released or re-took the container mutex)" % r["nested_delta"])
     if r["t0_depth"] != "0":
         bad.append("the owner returned from unlock() with the mutex still held (successful lock calls minus successful "
                    "unlock calls of the owner = %s)" % r["t0_depth"])
@@ -404,8 +439,7 @@ def judge_hold_c14(line, r):
     if r.get("probe") != "ok":
         bad.append("a third thread could not lock/unlock the container afterwards")
     if bad:
-        return ("lock held across %s waiter time-out(s) (%s forced-unlock attempts, %s failed polls observed): " % (
-            dict(x.split("=") for x in line.split()[1:]).get("rounds"), r.get("forced"), r.get("polls"))) + "; ".join(bad)
+        return _hold_what(line, r) + "; ".join(bad)
     return None
 
 
@@ -421,7 +455,7 @@ def judge_hold_c13(line, r):
         bad.append("two walks by the lock holder inside ONE critical section differ: %s then %s" % (r["walk1"], r["walk2"]))
     if r.get("t1_done_in_hold") == "1":
         bad.append("the other thread's mutating call completed while the lock was held")
-    if not bad and r.get("t1_completed") == "1":
+    if not bad and r.get("t1_completed") == "1" and r.get("final") not in (None, "-"):
         new = "777" if kind == "vector" else "v777" if kind in ("list", "queue") else "k77=v777"
         w1 = r["walk1"].split(",")
         if kind in ("hashtbl", "treetbl"):
@@ -436,6 +470,5 @@ def judge_hold_c13(line, r):
         if got != want or r.get("t1_ret") != "1":
             bad.append("final content %s (call returned %s) is not the held content %s plus the update" % (r["final"], r.get("t1_ret"), r["walk1"]))
     if bad:
-        return ("lock held across %s waiter time-out(s) (%s forced-unlock attempts observed): " % (
-            dict(x.split("=") for x in line.split()[1:]).get("rounds"), r.get("forced"))) + "; ".join(bad)
+        return _hold_what(line, r) + "; ".join(bad)
     return None
